@@ -621,6 +621,7 @@ static int others_all_blocked(int self);
  * fibers was made runnable before its context switch completed, so that the race can actually play out */
 static uint64_t hold_until[MAXT];
 static uint64_t n_wakeups_seen;
+static __thread int arm_rmw, arm_steps, arm_fire; /* directed stalls, see sim_stall_after_rmw */
 static int runnable(int i) {
   if (hold_until[i] > g_steps && T[i].st == ST_RUN) return 0;
   switch (T[i].st) {
@@ -800,7 +801,6 @@ void sim_sched_point(int kind) {
 }
 /* harness-directed slow thread: "this kernel thread is descheduled for a while right after its n-th atomic
  * read-modify-write from now" (part of the program, so it shrinks and replays like any other choice) */
-static __thread int arm_rmw, arm_steps, arm_fire;
 void sim_stall_after_rmw(int nth, int steps) {
   arm_rmw = nth;
   arm_steps = steps;
@@ -815,6 +815,16 @@ void sim_hold_before_dwcas(volatile int* reached, volatile int* release, int max
   hold_reached = reached;
   hold_release = release;
   hold_max_steps = max_steps;
+}
+/* "... right after its next successful read of the timer descriptor" (the kernel stub reports the read) */
+static __thread int arm_timer_steps;
+void sim_stall_after_timer_read(int steps) { arm_timer_steps = steps; }
+void sim_internal_timer_was_read(void) {
+  if (arm_timer_steps > 0) {
+    arm_steps = arm_timer_steps;
+    arm_timer_steps = 0;
+    arm_fire = 1;
+  }
 }
 static void sched_point_inner(int kind) {
   account_step(kind);
@@ -1581,8 +1591,16 @@ void __wrap_fiber_scheduler_schedule(void* s, void* f) {
        * after publishing the fiber (not a verdict: it lets another thread take the woken fiber and run it
        * while the waker has not finished with it - a waker that still uses the waiter's list node shows) */
       if (nthr > 1 && G[i].g == G_SAVED && (++n_wakeups_seen & 3) == 0) {
-        hold_until[me] = g_steps + 600;
-        sim_probe("waker_held_after_wake_up", 1);
+        if ((n_wakeups_seen & 15) == 0 && (fault_mask & FBIT(F_STALL))) {
+          /* every sixteenth, in runs that allow injected stalls anyway: away for a tick and a half of simulated
+           * time, long enough for kernel threads asleep in epoll_wait to wake up, steal the fiber and run it */
+          arm_steps = (int)(7500000 / cost_ns);
+          arm_fire = 1;
+          sim_probe("waker_stalled_after_wake_up", 1);
+        } else {
+          hold_until[me] = g_steps + 600;
+          sim_probe("waker_held_after_wake_up", 1);
+        }
       }
     }
     stat_sched++;
